@@ -272,6 +272,13 @@ def explore(ctx, res, replay=None):
                 src_lines[max(l1, l2)] = 'DEFINE NOP AS q := q END DEFINE'
                 for k_ in (0, 3, 8, 9, 10, 11):
                     add('hygiene_lines', src_lines, 'x := 7 ; SAVE x AROUND ZERO y' + ' ; NOP' * k_ + ' END', list(range(1, k_ + 4)))
+            # several macro definitions on ONE line (their bodies start on the same line of the same file): only the step
+            # number keeps their temporaries apart
+            one_line = ('DEFINE SAVE <ID> AROUND <P> END AS #0 := $0 ; $1 ; $0 := #0 END DEFINE DEFINE ZERO <ID> AS #0 := 0 ; $0 := #0 END DEFINE '
+                        'DEFINE SEVEN <ID> DO <P> END AS #0 := 7 ; $1 ; $0 := #0 END DEFINE DEFINE NOP AS q := q END DEFINE')
+            for s in ('x := 7 ; SAVE x AROUND ZERO y END', 'x := 5 ; SAVE x AROUND SEVEN y DO x := 1 END END ; z := x', 'SEVEN a DO SAVE a AROUND ZERO b END END',
+                      'NOP ; SAVE x AROUND NOP ; ZERO y END ; NOP', 'ZERO a ; ZERO b ; SAVE a AROUND ZERO a END'):
+                add('hygiene_sameline', [one_line], s, list(range(1, 9)))
             # temporaries on equal line numbers in several files, file names with ':' '_(M' ')' and digits
             loops = ['DEFINE PRIO 10 ping AS pong END DEFINE\nDEFINE PRIO 5 pong AS ping END DEFINE', 'DEFINE PRIO 7 nop AS x END DEFINE\nDEFINE grow AS grow grow END DEFINE',
                      'DEFINE PRIO 3 a AS b END DEFINE\nDEFINE PRIO 2 b AS c END DEFINE\nDEFINE PRIO 1 c AS a END DEFINE', 'DEFINE grow AS grow grow END DEFINE', 'DEFINE ping AS pong END DEFINE\nDEFINE pong AS ping END DEFINE', 'DEFINE one AS two END DEFINE\nDEFINE two AS three END DEFINE']
